@@ -121,6 +121,7 @@ template <class S> double draw_theta(const std::string& c, Rng& r) {
   if (c == "near_pi") return PI - r.logu(1e-6, 1e-2);
   if (c == "at_pi") return r.i(0, 3) == 0 ? PI : PI - r.logu(dbl ? 1e-12 : 1e-6, dbl ? 1e-6 : 1e-4);
   if (c == "beyond_pi") return r.u(PI, 3 * PI);
+  if (c == "sweep") return r.logu(1e-9, PI);                    // log-dense sweep (thorough tier)
   std::fprintf(stderr, "unknown theta cell %s\n", c.c_str()); std::exit(3);
 }
 inline double draw_lin(const std::string& c, Rng& r) {
